@@ -211,12 +211,12 @@ func c02Histories(tier string) [][]ops.Op {
 	// scripted: transfer + receive + contract call with auto-receive + refund + delegation change + skipped slot
 	hs = append(hs, []ops.Op{
 		{K: "T", A: 0, B: 1, V: 500}, {K: "Call", S: "stake", A: 1, V: 10}, M,
-		{K: "R", A: 1}, {K: "Call", S: "garbage", A: 2, B: 0, V: 7}, M,
+		{K: "R", A: 1}, {K: "Call", S: "refund", A: 5}, M,
 		{K: "Call", S: "delegate", A: 3, B: 2}, {K: "T", A: 1, B: 0, T: 1, V: 9}, {K: "M", V: 1},
 		{K: "R", A: 0}, M, M,
 	})
 	hs = append(hs, []ops.Op{
-		{K: "Call", S: "fuse", A: 0, B: 1, V: 50}, {K: "Call", S: "stake-qsr", A: 1, V: 3}, M, M,
+		{K: "Call", S: "fuse", A: 0, B: 1, V: 50}, {K: "Call", S: "refund", A: 6}, M, M,
 		{K: "Told", A: 2, B: 3, V: 11}, {K: "Call", S: "burn", A: 4, T: 0, V: 100}, M,
 		{K: "R", A: 3}, {K: "R", A: 1}, M, M,
 	})
@@ -230,7 +230,7 @@ func c02Histories(tier string) [][]ops.Op {
 		{K: "Told", A: 1, B: 2, V: 3},
 		{K: "R", A: 1},
 		{K: "Call", S: "stake", A: 2, V: 10},
-		{K: "Call", S: "garbage", A: 0, B: 1, V: 7, T: 1},
+		{K: "Call", S: "refund", A: 5},
 		{K: "Call", S: "delegate", A: 1, B: 1},
 		M,
 	}
